@@ -65,16 +65,16 @@ def single (pol : Policy) (w : Bool) (op fn : String) (fw : Bool) (a : CStr) : L
 /-- part after the last '/' (`cp = strrchr (from, '/'); cp ? cp + 1 : from`) -/
 def baseName (p : CStr) : CStr := (p.reverse.takeWhile (· ≠ '/')).reverse
 
-/-- `get_dir ()` after its `check_valid_path`, flags = 0 -/
+/-- `get_dir ()` after its `check_valid_path`, flags = 0: `temppath` is the path without a trailing "/" or
+    "/." (`listDir`); when `stat (temppath)` fails and nothing was cut off, the last component is a
+    pattern and the directory part (`parentDir`, "." without a slash) is listed. -/
 def getDirFs (ex : List CStr) (P : CStr) : List Ev :=
-  let last := baseName P
-  let cut := decide (P.length ≥ 2 ∧ '/' ∈ P ∧ (last = [] ∨ last = dot))
-  let temp := if cut then cutLast P else P
+  let temp := listDir P
+  let cut := decide (temp ≠ P)
   match lookup ex temp with
   | none =>
     if cut then [.fs "stat" false temp]
-    else if P.length ≥ 2 ∧ '/' ∈ P then [.fs "stat" false temp, .fs "opendir" false (cutLast P)]
-    else [.fs "stat" false temp, .fs "opendir" false dot]
+    else [.fs "stat" false temp, .fs "opendir" false (parentDir temp)]
   | some _ =>
     if !cut ∧ temp ≠ dot then [.fs "stat" false temp]
     else [.fs "stat" false temp, .fs "opendir" false temp]
